@@ -245,6 +245,62 @@ fn verif_two_ranges(data: &mut Vec<u8>, a: usize, n: usize, b: usize, m: usize) 
 '''
 
 
+# D vector / plan semantics (shared with V-SBENEW); lives inside a verus! block
+ENC_SPEC = r'''
+impl Symbol {
+    #[verifier::external_body]
+    pub fn as_bytes(&self) -> (r: &[u8]) ensures r@ == self.value@ { unimplemented!() }
+}
+pub uninterp spec fn kprime_of(k: int) -> int;
+pub uninterp spec fn s_of(k: int) -> int;
+pub uninterp spec fn h_of(k: int) -> int;
+pub open spec fn l_of(k: int) -> int { kprime_of(k) + s_of(k) + h_of(k) }
+pub open spec fn consts_ok(k: int) -> bool { k <= kprime_of(k) <= 56403 && 1 <= s_of(k) <= 907 && 1 <= h_of(k) <= 16 && l_of(k) < 65536 }
+// the D vector of RFC 6330 5.3.3.4.2 for the encoder: S+H zero symbols, the K source symbols, K'-K zero padding symbols
+pub open spec fn d_spec(src: Seq<Seq<u8>>, ss: int) -> Seq<Seq<u8>> {
+    let k = src.len() as int;
+    Seq::new(l_of(k) as nat, |r: int| if s_of(k) + h_of(k) <= r < s_of(k) + h_of(k) + k { src[r - s_of(k) - h_of(k)] } else { Seq::new(ss as nat, |j: int| 0u8) })
+}
+pub open spec fn sym_views(src: Seq<Symbol>) -> Seq<Seq<u8>> { Seq::new(src.len(), |i: int| src[i].value@) }
+// a plan is executable on `count` symbols: indices in range, dest != src, and a Reorder only as the final op with a permutation
+pub open spec fn plan_ok(ops: Seq<SymbolOps>, count: int) -> bool {
+    forall |i: int| 0 <= i < ops.len() ==> match #[trigger] ops[i] {
+        SymbolOps::AddAssign { dest, src } => (dest as int) < count && (src as int) < count && dest != src,
+        SymbolOps::MulAssign { dest, scalar } => (dest as int) < count,
+        SymbolOps::FMA { dest, src, scalar } => (dest as int) < count && (src as int) < count && dest != src,
+        SymbolOps::Reorder { order } => i == ops.len() - 1 && map_ok(order@, count),
+    }
+}
+pub open spec fn no_reorder_before(ops: Seq<SymbolOps>, n: int) -> bool {
+    forall |i: int| 0 <= i < n ==> !(#[trigger] ops[i] is Reorder)
+}
+// C09: a plan acts on every byte column independently, so it is valid for every symbol size
+pub proof fn lemma_plan_column_independence(v: Seq<Seq<u8>>, ops: Seq<SymbolOps>, n: nat, ss: int, j: int)
+    requires uniform(v, ss), 0 <= j < ss, n <= ops.len(), plan_ok(ops, v.len() as int),
+    ensures column(apply_ops(v, ops, n), j) == apply_ops(column(v, j), ops, n), uniform(apply_ops(v, ops, n), ss),
+            apply_ops(v, ops, n).len() == v.len(),
+    decreases n,
+{
+    if n > 0 {
+        lemma_plan_column_independence(v, ops, (n - 1) as nat, ss, j);
+        let prev = apply_ops(v, ops, (n - 1) as nat);
+        let op = ops[n - 1];
+        assert(op_in_range(prev, op)) by {
+            match op {
+                SymbolOps::Reorder { order } => { assert(map_ok(order@, v.len() as int)); }
+                _ => { }
+            }
+        }
+        lemma_column_independence(prev, op, ss, j);
+        match op {
+            SymbolOps::Reorder { order } => { assert(apply_op(prev, op).len() == v.len()); }
+            _ => { }
+        }
+    }
+}
+'''
+
+
 def build():
     u = VUnit('V-SLAB')
     u.raw(common.PRELUDE)
@@ -349,59 +405,7 @@ def build():
                   '(match *op { SymbolOps::Reorder { order } => true, _ => final(symbols).mapping == old(symbols).mapping })'])
     # ---------------- D vector and plan replay (src/encoder.rs)
     u.struct('src/symbol.rs', 'Symbol')
-    u.raw("""
-impl Symbol {
-    #[verifier::external_body]
-    pub fn as_bytes(&self) -> (r: &[u8]) ensures r@ == self.value@ { unimplemented!() }
-}
-pub uninterp spec fn kprime_of(k: int) -> int;
-pub uninterp spec fn s_of(k: int) -> int;
-pub uninterp spec fn h_of(k: int) -> int;
-pub open spec fn l_of(k: int) -> int { kprime_of(k) + s_of(k) + h_of(k) }
-pub open spec fn consts_ok(k: int) -> bool { k <= kprime_of(k) <= 56403 && 1 <= s_of(k) <= 907 && 1 <= h_of(k) <= 16 && l_of(k) < 65536 }
-// the D vector of RFC 6330 5.3.3.4.2 for the encoder: S+H zero symbols, the K source symbols, K'-K zero padding symbols
-pub open spec fn d_spec(src: Seq<Seq<u8>>, ss: int) -> Seq<Seq<u8>> {
-    let k = src.len() as int;
-    Seq::new(l_of(k) as nat, |r: int| if s_of(k) + h_of(k) <= r < s_of(k) + h_of(k) + k { src[r - s_of(k) - h_of(k)] } else { Seq::new(ss as nat, |j: int| 0u8) })
-}
-pub open spec fn sym_views(src: Seq<Symbol>) -> Seq<Seq<u8>> { Seq::new(src.len(), |i: int| src[i].value@) }
-// a plan is executable on `count` symbols: indices in range, dest != src, and a Reorder only as the final op with a permutation
-pub open spec fn plan_ok(ops: Seq<SymbolOps>, count: int) -> bool {
-    forall |i: int| 0 <= i < ops.len() ==> match #[trigger] ops[i] {
-        SymbolOps::AddAssign { dest, src } => (dest as int) < count && (src as int) < count && dest != src,
-        SymbolOps::MulAssign { dest, scalar } => (dest as int) < count,
-        SymbolOps::FMA { dest, src, scalar } => (dest as int) < count && (src as int) < count && dest != src,
-        SymbolOps::Reorder { order } => i == ops.len() - 1 && map_ok(order@, count),
-    }
-}
-pub open spec fn no_reorder_before(ops: Seq<SymbolOps>, n: int) -> bool {
-    forall |i: int| 0 <= i < n ==> !(#[trigger] ops[i] is Reorder)
-}
-// C09: a plan acts on every byte column independently, so it is valid for every symbol size
-pub proof fn lemma_plan_column_independence(v: Seq<Seq<u8>>, ops: Seq<SymbolOps>, n: nat, ss: int, j: int)
-    requires uniform(v, ss), 0 <= j < ss, n <= ops.len(), plan_ok(ops, v.len() as int),
-    ensures column(apply_ops(v, ops, n), j) == apply_ops(column(v, j), ops, n), uniform(apply_ops(v, ops, n), ss),
-            apply_ops(v, ops, n).len() == v.len(),
-    decreases n,
-{
-    if n > 0 {
-        lemma_plan_column_independence(v, ops, (n - 1) as nat, ss, j);
-        let prev = apply_ops(v, ops, (n - 1) as nat);
-        let op = ops[n - 1];
-        assert(op_in_range(prev, op)) by {
-            match op {
-                SymbolOps::Reorder { order } => { assert(map_ok(order@, v.len() as int)); }
-                _ => { }
-            }
-        }
-        lemma_column_independence(prev, op, ss, j);
-        match op {
-            SymbolOps::Reorder { order } => { assert(apply_op(prev, op).len() == v.len()); }
-            _ => { }
-        }
-    }
-}
-""", label='D vector / plan semantics')
+    u.raw(ENC_SPEC, label='D vector / plan semantics')
     for name, sp in [('num_intermediate_symbols', 'l_of'), ('num_ldpc_symbols', 's_of'), ('num_hdpc_symbols', 'h_of'), ('extended_source_block_symbols', 'kprime_of')]:
         u.fn('src/systematic_constants.rs', name, ret='r', external_body=True,
              requires=['source_block_symbols <= 56403'],
